@@ -111,10 +111,18 @@ theorem entry_plain (cfg : Cfg) (hp : Plain cfg) (k : Kind) (s : St) (d f t0 : N
     entryFilterRecord, h3, h4, h5, h6, h7, h8, h9, h10, hnd, plainFrame]
   all_goals (constructor <;> simp_all [NoSkip])
 
-theorem exit_plain (cfg : Cfg) (hp : Plain cfg) (k : Kind) (s2 : St) (d f t0 t1 : Nat) (w : Bool)
+theorem durOk_of_lt (cfg : Cfg) (t0 t1 : Nat) (h : t0 < t1) : durOk cfg (t1 - t0) 0 = true := by
+  unfold durOk; split <;> simp <;> omega
+
+theorem durOk_fixed (cfg : Cfg) (h : cfg.s4fixed = true) (x : Nat) : durOk cfg x 0 = true := by
+  simp [durOk, h]
+
+/-- the exit hook on a plain frame; `hdur` = the call passes the (absent) time filter, `hne` = the
+    clock does not read 0 (0 is the "still open" sentinel of `end_time`) -/
+theorem exit_plain' (cfg : Cfg) (hp : Plain cfg) (k : Kind) (s2 : St) (d f t0 t1 : Nat) (w : Bool)
     (rest : List Frame)
     (hfr : s2.frames = { plainFrame k f t0 d with written := w } :: rest)
-    (hg : Good s2 (d + 1)) (ht : t0 < t1)
+    (hg : Good s2 (d + 1)) (ht2 : ¬ t1 = 0) (hdur : durOk cfg (t1 - t0) 0 = true)
     (hw : w = true → markTo rest = rest) :
     (exit cfg s2 t1).out =
       s2.out ++ (if w then [] else pending rest ++ [entryRec (plainFrame k f t0 d)]) ++
@@ -124,9 +132,7 @@ theorem exit_plain (cfg : Cfg) (hp : Plain cfg) (k : Kind) (s2 : St) (d f t0 t1 
   obtain ⟨h1, h2, h3, h4, h5, h6, h7, h8, h9, h10, h11⟩ := hg
   have hrest : NoSkip rest := fun g hg => h11 g (by simp [hfr, hg])
   have hlen : rest.length = d := by simpa [hfr] using h2
-  have ht1 : (t1 == 0) = false := by simp; omega
-  have ht2 : ¬ t1 = 0 := by omega
-  have hdur : t1 - t0 > 0 := by omega
+  have ht1 : (t1 == 0) = false := by simpa using ht2
   have hfb := flushBelow_noskip rest hrest
   have hmn := markTo_noskip rest hrest
   have hml := markTo_length rest
@@ -154,5 +160,41 @@ theorem exit_plain (cfg : Cfg) (hp : Plain cfg) (k : Kind) (s2 : St) (d f t0 t1 
       simp [exit, h1, hfr, plainFrame, exitFilterRecord, hp.fast, h9, hp.thr, hp.caller, h4, hdur,
         recordTrace, Frame.skip, ht1, ht2, entryRec, exitRec, h3, h5, h6, hlen, noMaxDepth, noTime] <;>
       first | done | exact hrest | omega
+
+theorem exit_plain (cfg : Cfg) (hp : Plain cfg) (k : Kind) (s2 : St) (d f t0 t1 : Nat) (w : Bool)
+    (rest : List Frame)
+    (hfr : s2.frames = { plainFrame k f t0 d with written := w } :: rest)
+    (hg : Good s2 (d + 1)) (ht : t0 < t1)
+    (hw : w = true → markTo rest = rest) :
+    (exit cfg s2 t1).out =
+      s2.out ++ (if w then [] else pending rest ++ [entryRec (plainFrame k f t0 d)]) ++
+        [{ time := t1, type := 1, depth := d, addr := f }] ∧
+    (exit cfg s2 t1).frames = markTo rest ∧
+    Good (exit cfg s2 t1) d :=
+  exit_plain' cfg hp k s2 d f t0 t1 w rest hfr hg (by omega) (durOk_of_lt cfg t0 t1 ht) hw
+
+mutual
+theorem okFor_of_timed (cfg : Cfg) : ∀ c : Call, c.timed → c.okFor cfg
+  | .node _ t0 t1 kids, h => by
+    simp only [Call.timed] at h
+    exact ⟨⟨durOk_of_lt cfg t0 t1 h.1, by omega⟩, okFors_of_timed cfg kids h.2⟩
+theorem okFors_of_timed (cfg : Cfg) : ∀ cs : Calls, cs.timed → cs.okFor cfg
+  | .nil, _ => trivial
+  | .cons c rest, h => by
+    simp only [Calls.timed] at h
+    exact ⟨okFor_of_timed cfg c h.1, okFors_of_timed cfg rest h.2⟩
+end
+
+mutual
+theorem okFor_of_ended (cfg : Cfg) (hf : cfg.s4fixed = true) : ∀ c : Call, c.ended → c.okFor cfg
+  | .node _ t0 t1 kids, h => by
+    simp only [Call.ended] at h
+    exact ⟨⟨durOk_fixed cfg hf _, h.1⟩, okFors_of_ended cfg hf kids h.2⟩
+theorem okFors_of_ended (cfg : Cfg) (hf : cfg.s4fixed = true) : ∀ cs : Calls, cs.ended → cs.okFor cfg
+  | .nil, _ => trivial
+  | .cons c rest, h => by
+    simp only [Calls.ended] at h
+    exact ⟨okFor_of_ended cfg hf c h.1, okFors_of_ended cfg hf rest h.2⟩
+end
 
 end Uft.Mcount
